@@ -9,6 +9,7 @@ pub mod hops;
 pub mod oracle;
 pub mod panic;
 pub mod prefee;
+pub mod emfund;
 pub mod risk;
 pub mod privsim;
 pub mod xrate;
@@ -23,6 +24,7 @@ pub fn lookup(name: &str) -> Option<fn(&str) -> String> {
         "hops" => hops::run,
         "hopsref" => hops::run_ref,
         "prefee" => prefee::run,
+        "emfund" => emfund::run,
         "risk" => risk::run,
         "xrate" => xrate::run,
         "oracle" => oracle::run,
